@@ -28,6 +28,10 @@ structure RawEntry where
   bias : Nat
   cps : Option Ranges
   size : Nat
+  /-- the error `decode_format2_codepoints` returned when `cps = none`: the sparse bit set does not
+  decode (`MalformedData`), or — byte level, Model/PatchMapBytes.lean — the bias does not fit
+  (`OutOfBounds`) -/
+  cpsErr : String := "err:Malformed:Failed_to_decode_sparse_bit_set_data_stream."
   deriving Repr, Inhabited
 
 def RawEntry.hasFeatures (r : RawEntry) : Bool := r.flags % 2 = 1
@@ -117,7 +121,7 @@ def decodeEntry (tag : TableTag) (t : F2Table) (defaultEnc : PatchFormat) (st : 
   -- codepoints
   let cps ← if raw.cpMode = 0 then pure ([] : Ranges) else
       (match raw.cps with
-       | none => throw "err:Malformed:Failed_to_decode_sparse_bit_set_data_stream."
+       | none => throw raw.cpsErr
        | some s => pure (biasAndBound (if raw.cpMode = 1 then 0 else raw.bias) s))
   let entry : Entry :=
     { sd := { cps := cps, feats := feats, ds := .ranges axes }
